@@ -1,9 +1,11 @@
 package props
 
 import (
+	"context"
 	"errors"
 	"fmt"
 	"io"
+	"net"
 	"strings"
 	"time"
 
@@ -25,6 +27,7 @@ var incidentKinds = []string{
 	"ack-write-fails", "dial-fails-n-times", "handshake-fails", "resend-fails", "refused",
 	"expiry-while-skipping-big-duplicate", // the broker stalls inside the payload of a retransmission that gets skipped
 	"expiry-while-skipping-unread-big",    // the same inside a big message the application did not read
+	"violation-inside-big-publish",        // a PUBLISH beyond the read buffer that is itself a protocol violation
 }
 
 const c10Min, c10Max = 2 * time.Millisecond, 16 * time.Millisecond
@@ -77,6 +80,17 @@ func runIncidents(c *run.Ctx, kinds []string) {
 	w.DialPlan = func(w *sim.World, n int) sim.DialDecision {
 		if failDials > 0 {
 			failDials--
+			// what Dialers report: none of these means that the Client got closed
+			switch w.Rng.Intn(6) {
+			case 0:
+				return sim.DialDecision{Err: fmt.Errorf("sim: dial tcp: lookup broker: %w", context.Canceled)}
+			case 1:
+				return sim.DialDecision{Err: fmt.Errorf("sim: dial tcp: %w", context.DeadlineExceeded)}
+			case 2:
+				return sim.DialDecision{Err: &net.OpError{Op: "dial", Net: "tcp", Err: net.ErrClosed}}
+			case 3:
+				return sim.DialDecision{Err: io.ErrUnexpectedEOF}
+			}
 			return sim.DialDecision{Err: errors.New("sim: host unreachable")}
 		}
 		return sim.DialDecision{}
@@ -282,6 +296,20 @@ func runIncidents(c *run.Ctx, kinds []string) {
 				cutAt := len(full) - 1000 - c.Rng.Intn(900)
 				conn.Send(full[:cutAt], "big PUBLISH, silence inside the payload")
 			}
+		case "violation-inside-big-publish":
+			// packet identifier zero, or the reserved level 3, on a message beyond the
+			// read buffer; what the client parked for it must not outlive the connection
+			big := sim.MarkerPayload(n, mqtt.VerifReadBufSize()+500+c.Rng.Intn(3000))
+			pk := wire.Publish("in/bad/"+tag, big, byte(1+c.Rng.Intn(2)), 0x0101, false, false)
+			if c.Rng.Intn(2) == 0 {
+				pk[0] |= 6 // level 3
+			} else {
+				// identifier zero: the two bytes behind the topic
+				hl, _, _ := wire.Header(pk)
+				tl := int(pk[hl])<<8 | int(pk[hl+1])
+				pk[hl+2+tl], pk[hl+2+tl+1] = 0, 0
+			}
+			conn.Send(pk, "big PUBLISH that violates the protocol")
 		case "protocol-violation":
 			conn.Send(directed[c.Rng.Intn(8)].b, "protocol violation")
 		case "ack-write-fails":
@@ -429,7 +457,7 @@ func init() {
 			return 700
 		},
 		ChunkSize:   25,
-		Rule:        "each case strings 1-5 incidents on one client with an always-calling read loop that waits on ReadBackoff (ReconnectWaitMin 2 ms, Max 16 ms). Incident kinds place a failure relative to the read routine with hook parking and connection gates: another goroutine's request write (Publish, Subscribe, Ping) fails while the read routine is parked right before its acknowledgement flush, parked between saving and writing a PUBREL, blocked in Read, or after it flushed; the read routine meets a protocol violation while a writer is stuck inside Write holding the connection; EOF, reset, expiry inside a packet, a protocol violation; the broker falls silent inside the payload of a message beyond the read buffer that is being skipped (a retransmitted exactly-once duplicate, or one the application chose not to read); the acknowledgement's own write fails; 1-5 consecutive dial failures; 1-3 handshakes cut; refusals; resend failures with transfers pending. Oracle after each incident: the failed connection gets closed, the Dialer is invoked again, every request pending on that connection returns, Online is released and a Ping succeeds; 'does not happen' is decided structurally (no event and identical goroutine stacks for the stability window) with the dump as witness. ReadBackoff: non-nil for every error but ErrClosed, idle duration (seen through verifNote) inside [Min, Max], equal to Max after refusals and to the documented doubling otherwise, channel never closed earlier than that duration. Non-trivial: every incident; distinct by incident kind sequence.",
+		Rule:        "each case strings 1-5 incidents on one client with an always-calling read loop that waits on ReadBackoff (ReconnectWaitMin 2 ms, Max 16 ms). Incident kinds place a failure relative to the read routine with hook parking and connection gates: another goroutine's request write (Publish, Subscribe, Ping) fails while the read routine is parked right before its acknowledgement flush, parked between saving and writing a PUBREL, blocked in Read, or after it flushed; the read routine meets a protocol violation while a writer is stuck inside Write holding the connection; EOF, reset, expiry inside a packet, a protocol violation; the broker falls silent inside the payload of a message beyond the read buffer that is being skipped (a retransmitted exactly-once duplicate, or one the application chose not to read); the acknowledgement's own write fails; 1-5 consecutive dial failures (plain errors, errors that wrap context.Canceled or DeadlineExceeded, net.ErrClosed, unexpected EOF: none means the Client was closed); a PUBLISH beyond the read buffer that is itself a protocol violation; 1-3 handshakes cut; refusals; resend failures with transfers pending. Oracle after each incident: the failed connection gets closed, the Dialer is invoked again, every request pending on that connection returns, Online is released and a Ping succeeds; 'does not happen' is decided structurally (no event and identical goroutine stacks for the stability window) with the dump as witness. ReadBackoff: non-nil for every error but ErrClosed, idle duration (seen through verifNote) inside [Min, Max], equal to Max after refusals and to the documented doubling otherwise, channel never closed earlier than that duration. Non-trivial: every incident; distinct by incident kind sequence.",
 		Assumptions: []string{"the stability window is 1.5 s (75 periods of the client's only periodic timer) after an 8 s watchdog; a watchdog expiry with events still flowing is inconclusive", "real time is used to hold nothing; the early-close check of ReadBackoff is the one sound direction of a wall-clock comparison"},
 		Run: func(c *run.Ctx) {
 			n := 1 + c.Rng.Intn(5)
